@@ -19,6 +19,10 @@ def sh(cmd, cwd=None, timeout=3600):
 
 
 def run_demo(d, include_dir, chai_bin):
+    if os.path.exists(os.path.join(d, "demo.sh")) and os.path.exists(os.path.join(d, "demo.cpp")):
+        # a script that builds demo.cpp itself (e.g. with ThreadSanitizer): first argument is the include directory
+        rc, out = sh("bash %s %s %s" % (os.path.join(d, "demo.sh"), include_dir, chai_bin), timeout=3000)
+        return rc, out[-1500:]
     if os.path.exists(os.path.join(d, "demo.chai")):
         rc, out = sh("%s %s" % (chai_bin, os.path.join(d, "demo.chai")), timeout=300)
         return rc, out[-1500:]
@@ -73,6 +77,14 @@ def main():
             res["apply_error"] = out[-400:]
         with open(os.path.join(d, "verified.json"), "w") as fh:
             json.dump(res, fh, indent=1)
+        mp = os.path.join(d, "meta.json")
+        if os.path.exists(mp):
+            meta = json.load(open(mp))
+            meta.setdefault("what_i_ran", {})["confirmation (tools/verify_seeded.py, scratch worktree /tmp/wt/verify of /repo HEAD)"] = {
+                "patch_applies_to_head": res.get("patch_applies_to_head"), "builds": res.get("builds"), "baseline_tests": res.get("ctest"),
+                "demo_without_patch_exit": res["demo_without_patch"]["exit"], "demo_with_patch_exit": res.get("demo_with_patch", {}).get("exit"),
+                "confirmed": res["confirmed"]}
+            json.dump(meta, open(mp, "w"), indent=1)
         print(i, "confirmed" if res["confirmed"] else "NOT CONFIRMED", res.get("ctest"), flush=True)
     sh("git -C /repo worktree remove --force %s" % WT)
     shutil.rmtree(WT, ignore_errors=True)
